@@ -100,11 +100,12 @@ META = {
  "C11": dict(
     engine="vh",
     design_ref="5.11",
-    technique="runtime monitor: reference database mirror (snapshot at request time) compared with the concatenated static objects of each response series; structural rules on FIR/FIN/CON/sequence and confirm gating in virtual time",
+    technique="runtime monitor: reference database mirror (snapshot at request time) compared with the concatenated static objects of each response series; structural rules on FIR/FIN/CON/sequence and confirm gating in virtual time; under real threads (TCP loopback, two updater threads) an offline history check: the static objects of each response series must be explained by one database state between two ledger-recorded transactions",
     text=("Exploration. Random databases (8 types, sparse and dense indices up to 65535, every static variation incl. bit-packed ones) and READs (class 0, all-objects, 8/16-bit ranges, specific variations, overlapping headers) against tx buffers 249..2048. "
           "For every request header the reported points must be exactly the existing points in range, each once, ascending, with the value/flags/time the mirror held when the request was sent (updates applied while fragments await confirmation must not appear), "
           "in the requested or configured variation (packed formats only for plainly ONLINE points). FIR only first, FIN only last, consecutive sequence, CON on every non-final fragment, next fragment only after the matching confirm (wrong confirms and updates do not release it), "
-          "nothing after a timeout, late confirm, new request or reconnect; the first response on a new connection contains exactly what its request selects."),
+          "nothing after a timeout, late confirm, new request or reconnect; the first response on a new connection contains exactly what its request selects. "
+          "Real-thread part (C02 workload): user threads commit 1-4 point updates per transaction (back to back while a seven-header static READ is outstanding); for every response series the intervals of the ledger counter during which each reported point showed the reported value are intersected and must contain a transaction boundary (rule torn_snapshot)."),
     note="Header partitioning is free: object sequences are compared, not header boundaries; within a class 0 header types may come in any order.",
  ),
  "C14": dict(
